@@ -14,16 +14,21 @@
 (* the real code through the hook's gates.                                 *)
 (***************************************************************************)
 EXTENDS Naturals, Sequences, FiniteSets
-CONSTANTS Threads, Calls, Program
+CONSTANTS Threads, Calls, Program, MaxAttempts     \* MaxAttempts: CAS attempts before the code gives up and proceeds anyway (0 = retries until it succeeds)
 
-VARIABLES counter, reg, pc, left, names, sched
-vars == <<counter, reg, pc, left, names, sched>>
+VARIABLES counter, reg, pc, left, names, dup, tries, sched
+vars == <<counter, reg, pc, left, names, dup, tries, sched>>
+\* `sched` is a history variable: it is hidden from the fingerprint by the VIEW, so it does not multiply states,
+\* but it is printed with a counterexample.
+View == <<counter, reg, pc, left, names, dup, tries>>
 
 Init == /\ counter = 0
         /\ reg = [t \in Threads |-> 0]
         /\ pc = [t \in Threads |-> 1]
         /\ left = [t \in Threads |-> Calls]
-        /\ names = << >>
+        /\ names = {}
+        /\ dup = FALSE
+        /\ tries = [t \in Threads |-> 0]
         /\ sched = << >>
 
 \* thread t performs its next primitive (or, after the last one, returns its name)
@@ -31,26 +36,33 @@ Step(t) ==
     /\ left[t] > 0
     /\ sched' = Append(sched, t)
     /\ IF pc[t] > Len(Program)
-       THEN /\ names' = Append(names, reg[t])
+       THEN /\ names' = names \cup {reg[t]}
+            /\ dup' = (dup \/ reg[t] \in names)
             /\ pc' = [pc EXCEPT ![t] = 1]
             /\ left' = [left EXCEPT ![t] = left[t] - 1]
-            /\ UNCHANGED <<counter, reg>>
+            /\ UNCHANGED <<counter, reg, tries>>
        ELSE LET op == Program[pc[t]] IN
-            /\ UNCHANGED <<names, left>>
+            /\ UNCHANGED <<names, dup, left>>
             /\ CASE op = "fetch_add" -> /\ reg' = [reg EXCEPT ![t] = counter] /\ counter' = counter + 1
+                                        /\ pc' = [pc EXCEPT ![t] = pc[t] + 1] /\ UNCHANGED tries
+                 [] op = "load"      -> /\ reg' = [reg EXCEPT ![t] = counter] /\ UNCHANGED <<counter, tries>>
                                         /\ pc' = [pc EXCEPT ![t] = pc[t] + 1]
-                 [] op = "load"      -> /\ reg' = [reg EXCEPT ![t] = counter] /\ UNCHANGED counter
-                                        /\ pc' = [pc EXCEPT ![t] = pc[t] + 1]
-                 [] op = "store"     -> /\ counter' = reg[t] + 1 /\ UNCHANGED reg
+                 [] op = "store"     -> /\ counter' = reg[t] + 1 /\ UNCHANGED <<reg, tries>>
                                         /\ pc' = [pc EXCEPT ![t] = pc[t] + 1]
                  [] op = "cas"       -> IF counter = reg[t]
                                         THEN /\ counter' = reg[t] + 1 /\ UNCHANGED reg /\ pc' = [pc EXCEPT ![t] = pc[t] + 1]
+                                             /\ tries' = [tries EXCEPT ![t] = 0]
+                                        ELSE IF MaxAttempts > 0 /\ tries[t] + 1 >= MaxAttempts
+                                        THEN \* the code gives up after this failed attempt and carries on with what it has
+                                             /\ UNCHANGED <<counter, reg>> /\ pc' = [pc EXCEPT ![t] = pc[t] + 1]
+                                             /\ tries' = [tries EXCEPT ![t] = 0]
                                         ELSE /\ reg' = [reg EXCEPT ![t] = counter] /\ UNCHANGED <<counter, pc>>
+                                             /\ tries' = [tries EXCEPT ![t] = tries[t] + 1]
 Next == \E t \in Threads : Step(t)
 Spec == Init /\ [][Next]_vars
 
 \* No two completed calls in the process received the same name.
-Unique == \A i, j \in 1..Len(names) : i # j => names[i] # names[j]
+Unique == ~dup
 \* every name was a value of the counter
-Sane == \A i \in 1..Len(names) : names[i] < counter
+Sane == \A v \in names : v < counter \/ dup
 =============================================================================
